@@ -568,6 +568,10 @@ class Models:
         if name in ("skip_while", "skip_bytes"):
             self.poison_check(fr, n, "%s()" % name, line)
             site = ("token", name, line)
+            if name == "skip_while" and len(vals) > 1:
+                cv = self.deref_val(fr, vals[1])
+                if isinstance(cv, tuple) and cv[0] == "closure":
+                    st.ev("uarg", repr_term(term_of(cv)))
             pb = self.node(fr, n, "%s@%s" % (name, line))
             self.after_node(st, "%s@%s" % (name, line), "done", pb)
             i.pos = ("T", site)
@@ -977,7 +981,10 @@ class Models:
             for v in vals:
                 if has_token(v):
                     self.token_lost(fr, v, "moved into the memo table (%s)" % name, "alt", line)
-            st.ev("memo", name, line)
+            what = name
+            if name == "insert" and len(vals) >= 2:
+                what = "insert %s" % describe(self.deref_val(fr, vals[-1])).replace(" ", "")
+            st.ev("memo", what, line)
             self.I.memo_ops.append((fr.body, name, [describe(v) for v in vals], line, st))
             if name == "entry":
                 return [(st, ("sym", ("memo_entry",)))]
